@@ -297,22 +297,15 @@ theorem isTombNode_noNodeTombs (runs : List Run) (h : NoNodeTombs runs) (n : Nat
   intro r hr; rw [h r hr]; simp
 
 /-- the engine state a compaction may start from without losing anything: the runs hold no node
-    tombstone and no property removal, their edge tombstones hit no older segment (`segsClear`), and the
-    store is empty while there is no root -/
+    tombstone and no property removal, and their edge tombstones hit no older segment (`segsClear`) -/
 def compactSafe (c : Cfg) (s : Engine) : Bool :=
-  s.runs.all (fun r => r.tombNodes.isEmpty && r.nDel.isEmpty && r.eDel.isEmpty) &&
-  (s.propsRoot != 0 || s.store.isEmpty) && segsClear c s
+  s.runs.all (fun r => r.tombNodes.isEmpty && r.nDel.isEmpty && r.eDel.isEmpty) && segsClear c s
 
 theorem compactSafe_unpack (c : Cfg) (s : Engine) (hs : compactSafe c s = true) :
-    NoNodeTombs s.runs ∧ (∀ r ∈ s.runs, r.nDel = []) ∧ (∀ r ∈ s.runs, r.eDel = []) ∧
-    (s.propsRoot = 0 → s.store = []) ∧ segsClear c s = true := by
-  simp only [compactSafe, Bool.and_eq_true, List.all_eq_true, List.isEmpty_iff, Bool.or_eq_true,
-    bne_iff_ne, ne_eq] at hs
-  obtain ⟨⟨hruns, hroot⟩, hclear⟩ := hs
-  refine ⟨fun r hr => (hruns r hr).1.1, fun r hr => (hruns r hr).1.2, fun r hr => (hruns r hr).2, ?_, hclear⟩
-  intro h0; rcases hroot with h | h
-  · exact absurd h0 h
-  · exact h
+    NoNodeTombs s.runs ∧ (∀ r ∈ s.runs, r.nDel = []) ∧ (∀ r ∈ s.runs, r.eDel = []) ∧ segsClear c s = true := by
+  simp only [compactSafe, Bool.and_eq_true, List.all_eq_true, List.isEmpty_iff] at hs
+  obtain ⟨hruns, hclear⟩ := hs
+  exact ⟨fun r hr => (hruns r hr).1.1, fun r hr => (hruns r hr).1.2, fun r hr => (hruns r hr).2, hclear⟩
 
 /-- node enumeration is unchanged by a compaction of runs without node tombstones -/
 theorem compact_nodes_E (c : Cfg) (s : Engine) (h : NoNodeTombs s.runs) :
